@@ -44,6 +44,8 @@ def run(chk, replay=None):
     cases = streams.corpus_lines() + streams.fixture_lines() + streams.deep_lines()[::3] + streams.grammar_lines(rng, 3000 if th else 500, 0.1) + streams.search_lines(rng, None if th else 400)
     repls = streams.REPLS + ['\\"quoted\\"', 'tab\there', 'a@b']
     cfgs = [Cfg(repl=r, nums=rng.random() < .5, bools=rng.random() < .5) for r in repls]
+    # together with --redactNamespaces (the pseudonym function reads the same replacement text): pseudonyms are C12's business and skipped below
+    cfgs += [Cfg(repl='', nss=True), Cfg(repl='x.y', nss=True, nums=True), Cfg(repl='REDACTED', nss=True, bools=True)]
     streams.note_distribution(chk, cases)
     chk.rule = ("grammar command lines (all literal classes in all slots: filter, update operators, $in arrays, inserted documents, $match, expressions, search operators) "
                 "x replacement strings (quotes, backslashes, non-ASCII, empty, e-mail-like); non-trivial = distinct (replacement, class, slot key) of a changed leaf")
@@ -65,6 +67,8 @@ def run(chk, replay=None):
             if ch is None: continue   # shape is C03's business
             for (ip, kp, kind, val), (_, _, okind, oval) in ch:
                 case = {'cfg': cfg.describe(), 'path': list(kp), 'old': str(val), 'new': str(oval), 'input': l.decode('utf-8', 'replace')}
+                if kind == 'str' and cfg.nss and okind == 'str' and re.fullmatch('(?:' + re.escape(repl) + r'_[0-9a-f]{16})(?:\.' + re.escape(repl) + r'_[0-9a-f]{16})*', oval):
+                    chk.dist('changed_pseudonym'); continue
                 if kind == 'str':
                     cls = classify(kp, val)
                     chk.nontriv((ci, cls, kp[-1] if kp else ''))
